@@ -998,7 +998,7 @@ func cmd4(c *Ctx) {
 	okDD := false
 	why := "no test of the token against `--` at the start of each iteration"
 	if iff, ok := entry.Instrs[len(entry.Instrs)-1].(*ssa.If); ok {
-		if bo, isBo := iff.Cond.(*ssa.BinOp); isBo && bo.Op == token.EQL && bo.X == tok {
+		if bo, isBo := iff.Cond.(*ssa.BinOp); isBo && bo.Op == token.EQL && sameElem(bo.X, tok) {
 			if s, isS := ir.ConstString(bo.Y); isS && s == "--" {
 				t := entry.Succs[0]
 				if ir.IsReturn(t) {
@@ -1041,9 +1041,9 @@ func cmd4(c *Ctx) {
 				return
 			}
 			var other ssa.Value
-			if bo.X == tok {
+			if sameElem(bo.X, tok) {
 				other = bo.Y
-			} else if bo.Y == tok {
+			} else if sameElem(bo.Y, tok) {
 				other = bo.X
 			}
 			if other == nil {
@@ -1092,9 +1092,9 @@ func cmd4(c *Ctx) {
 				return
 			}
 			var other ssa.Value
-			if bo.X == tok {
+			if sameElem(bo.X, tok) {
 				other = bo.Y
-			} else if bo.Y == tok {
+			} else if sameElem(bo.Y, tok) {
 				other = bo.X
 			}
 			if other == nil {
@@ -1160,7 +1160,7 @@ func cmd4(c *Ctx) {
 				}
 				isDD := false
 				if iff, ok := p.Instrs[len(p.Instrs)-1].(*ssa.If); ok && p.Succs[0] == exit {
-					if bo, isBo := iff.Cond.(*ssa.BinOp); isBo && bo.Op == token.EQL && bo.X == tok {
+					if bo, isBo := iff.Cond.(*ssa.BinOp); isBo && bo.Op == token.EQL && sameElem(bo.X, tok) {
 						if sv, isS := ir.ConstString(bo.Y); isS && sv == "--" {
 							isDD = true
 						}
